@@ -10,7 +10,10 @@
    traces: finite lists of environment items
      Fs f          what reading the path returns changes to f,
      In i          the loop's select receives i (fs event with a name, tick,
-                   reload, watcher error, ctx done, closed channel),
+                   reload, watcher error, its own recheck token, ctx done,
+                   closed channel) and one whole pass of the loop body runs,
+     InRead i, Cont  the same pass split in two (Source.Value / the rest), so
+                   that the file system may change in between,
      KernelDrop p  inotify removed the watch registered under p.
    `after udw cfg c0 v0 r0 t` is the loop state after trace t, started right
    after Watch() returned; udw is the updateDirWatches in use (the first four
@@ -44,23 +47,43 @@ Theorem identical_content_no_new_version : forall decode hmac udw cfg c0 v0 r0 t
   st_reports (after decode hmac udw cfg c0 v0 r0 t1).
 Proof. exact identical_content_no_new_version_l. Qed.
 
-(* Whenever the loop re-reads: an I/O error or undecodable content is reported
-   as an error; a missing file is tolerated silently. *)
+(* Whenever the loop receives an input that makes it re-read (receives: it is
+   blocked in its select, the input is not a stop and passes the filter): an
+   I/O error or undecodable content is reported as an error; a missing file is
+   tolerated silently. *)
 Theorem errors_forwarded : forall decode hmac udw cfg f st i,
-  st_running st = true -> stops i = false -> triggers cfg st i = true ->
+  receives cfg st i = true ->
   (bad_read decode (fs_read f) ->
    st_reports (step decode hmac udw cfg f st i) = RError :: st_reports st) /\
   (fs_read f = NotExist -> st_reports (step decode hmac udw cfg f st i) = st_reports st).
 Proof. exact errors_forwarded_l. Qed.
 
-(* After ctx.Done (or a closed watcher channel) the loop has returned, every
-   watch is released, and nothing that happens later changes the state. *)
+(* After ctx.Done (or a closed watcher channel) is received (the loop is at its
+   select: no pass is half done) the loop has returned, every watch is
+   released, and nothing that happens later changes the state. *)
 Theorem loop_exits_on_cancel : forall decode hmac udw cfg c0 v0 r0 t1 i t2,
-  stops i = true ->
+  stops i = true -> st_pending (after decode hmac udw cfg c0 v0 r0 t1) = None ->
   st_running (after decode hmac udw cfg c0 v0 r0 (t1 ++ In i :: t2)) = false /\
   st_watches (after decode hmac udw cfg c0 v0 r0 (t1 ++ In i :: t2)) = [] /\
   after decode hmac udw cfg c0 v0 r0 (t1 ++ In i :: t2) = after decode hmac udw cfg c0 v0 r0 (t1 ++ [In i]).
 Proof. exact loop_exits_on_cancel_l. Qed.
+
+(* The repaired read-before-watch order: whenever the second half of a pass
+   adds a watch that was not there, a token is left in the recheck channel
+   (the loop also starts with one: init_state), and a waiting token is received
+   like any input and makes the loop read the file once more - now with the
+   watch in place. *)
+Theorem recheck_after_new_watch : forall cfg f st p,
+  mem p (st_watches st) = false ->
+  mem p (st_watches (cont_phase update_dir_watches cfg f st)) = true ->
+  st_recheck (cont_phase update_dir_watches cfg f st) = true.
+Proof. exact recheck_after_new_watch_l. Qed.
+
+Theorem recheck_token_rereads : forall decode hmac udw cfg f st,
+  at_select st = true -> st_recheck st = true ->
+  step decode hmac udw cfg f st IRecheck = reload decode hmac udw cfg f (take IRecheck st) /\
+  st_recheck (take IRecheck st) = false /\ receives cfg st IRecheck = true.
+Proof. exact recheck_token_rereads_l. Qed.
 
 (* Watch-set invariant of the repaired code: along every history whose
    environment is well formed (trace_ok: watches can be added while the file
@@ -108,5 +131,7 @@ Print Assumptions dedupe_sound.
 Print Assumptions identical_content_no_new_version.
 Print Assumptions errors_forwarded.
 Print Assumptions loop_exits_on_cancel.
+Print Assumptions recheck_after_new_watch.
+Print Assumptions recheck_token_rereads.
 Print Assumptions watchset_invariant.
 Print Assumptions converges_given_notification.
